@@ -226,7 +226,9 @@ fn check_n_n(ctx: &mut Ctx, ont: &Ontology, l: usize, kind: Kind, big_n: usize, 
                 continue;
             }
             let want = pref.p(big_n, big_k, n, k);
-            if (*p - want).abs() > pref.rtol() * want.abs() + 1e-300 {
+            // absolute slack: four steps of the subnormal grid (tails below 2.2e-308 lose relative precision
+            // in any f64 computation; below 4.9e-324 the correctly rounded tail is 0)
+            if (*p - want).abs() > pref.rtol() * want.abs() + 2e-323 {
                 ctx.violation(site(kind), "p-value is not the hypergeometric tail P[X >= k]", case(json!({"record": j, "N": big_n, "K": big_k, "n": n, "k": k, "observed_p": p, "expected_p": want})));
                 continue;
             }
@@ -388,6 +390,25 @@ pub fn run(ctx: &mut Ctx) {
             ctx.mark_partial("large-population slices are a listed subset of (n, s) by design");
         }
     }
+    // ---- tails around the smallest f64 values: N = 1200, K = n = k sweeping 335..=360 gives 1/C(1200, n) from
+    // 1e-305 down to 1e-318 (the normal / subnormal border is crossed at n = 341), and n = 400 underflows to 0
+    {
+        let big_n = 1200usize;
+        ctx.space("logref/gene/subnormal-tails", "N = 1200, n in 335..=360 and 400, sample = leaves 1..n (so record n has K = n = k and the tail is 1/C(N, n)), all 1200 records; log-domain reference, rtol 1e-6 + 4 subnormal steps");
+        let lref = LogDomain::new(big_n + 1);
+        let mut ont: Option<Ontology> = None;
+        for n in (335..=360usize).chain([400]) {
+            if !ctx.take() {
+                continue;
+            }
+            ctx.state();
+            if ont.is_none() {
+                ont = Some(staircase(big_n, &[Kind::Gene]));
+            }
+            check_n_n(ctx, ont.as_ref().unwrap(), big_n, Kind::Gene, big_n, n, &[1], &lref, false);
+            ctx.sample(|| json!({"kind": "gene", "N": big_n, "n": n, "smallest_tail": lref.p(big_n, n, n, n)}));
+        }
+    }
     // ---- large populations: log-domain reference
     {
         let sizes: Vec<usize> = if thorough { vec![400, 1000, 2000, 3000] } else { vec![400, 2000] };
@@ -415,6 +436,93 @@ pub fn run(ctx: &mut Ctx) {
                 ctx.sample(|| json!({"kind": "gene", "N": big_n, "n": n, "window_starts": starts}));
             }
             ctx.mark_partial("large-population slices are a listed subset of (n, s) by design");
+        }
+    }
+    // ---- (last: 100 000 terms leave garbage in the allocator) counts whose PRODUCTS exceed 32 bits: a background of
+    // 100 000 leaves, gene 1 on leaves 1..70 000, gene 2 on leaves 60 001..100 000, samples of 42 000, 43 000,
+    // 70 000 and all 100 000 leaves
+    {
+        ctx.space("huge/N=100000", "flat ontology with 100 000 leaves; gene 1 on leaves 1..70000, gene 2 on leaves 60001..100000 (likewise one OMIM and one ORPHA record each); samples {1..42000, 1..43000, 30001..100000, all}: count, fold enrichment exactly, p-value against the log-domain reference");
+        let big_n = 100_000usize;
+        let samples: [(usize, usize); 4] = [(1, 42_000), (1, 43_000), (30_001, 100_000), (1, 100_000)];
+        let mut ont: Option<Ontology> = None;
+        let mut lref: Option<LogDomain> = None;
+        for (lo, hi) in samples {
+            if !ctx.take() {
+                continue;
+            }
+            ctx.state();
+            ctx.nontrivial();
+            if ont.is_none() {
+                let mut f = Facts::default();
+                f.terms.push(Facts::term(1, "root"));
+                for i in 1..=big_n as u32 {
+                    f.terms.push(Facts::term(LEAF0 + i, "l"));
+                    f.edges.push((LEAF0 + i, 1));
+                }
+                for kind in KINDS {
+                    for i in 1..=70_000u32 {
+                        f.anns.push(Facts::ann(kind, 1, "ONE", Some(LEAF0 + i)));
+                    }
+                    for i in 60_001..=100_000u32 {
+                        f.anns.push(Facts::ann(kind, 2, "TWO", Some(LEAF0 + i)));
+                    }
+                }
+                ont = drive::build(&f, Mode::Minimal).ok();
+                lref = Some(LogDomain::new(big_n + 1));
+            }
+            let (Some(o), Some(lr)) = (ont.as_ref(), lref.as_ref()) else {
+                ctx.violation("Builder", "[builder] construction fails on valid facts", json!({"leaves": big_n}));
+                break;
+            };
+            let n = hi - lo + 1;
+            for kind in KINDS {
+                ctx.exec();
+                ctx.validated();
+                ctx.transitions(1);
+                let got = guard(|| {
+                    let bg = (1..=big_n as u32).map(|i| o.hpo(LEAF0 + i).unwrap());
+                    let sample = (lo as u32..=hi as u32).map(|i| o.hpo(LEAF0 + i).unwrap());
+                    let mut v: Vec<(u32, u64, f64, f64)> = match kind {
+                        Kind::Gene => gene_enrichment(bg, sample).iter().map(|e| (e.id().as_u32(), e.count(), e.pvalue(), e.enrichment())).collect(),
+                        Kind::Omim => omim_disease_enrichment(bg, sample).iter().map(|e| (e.id().as_u32(), e.count(), e.pvalue(), e.enrichment())).collect(),
+                        Kind::Orpha => orpha_disease_enrichment(bg, sample).iter().map(|e| (e.id().as_u32(), e.count(), e.pvalue(), e.enrichment())).collect(),
+                    };
+                    v.sort_by_key(|x| x.0);
+                    v
+                });
+                let case = |extra: serde_json::Value| json!({"layout": "100 000 leaves; record 1 on leaves 1..70000, record 2 on leaves 60001..100000", "sample": format!("leaves {lo}..={hi}"), "kind": kind.name(), "detail": extra});
+                let res = match got {
+                    Ok(r) => r,
+                    Err(p) => {
+                        ctx.violation(site(kind), "panics", case(json!({"observed": p})));
+                        continue;
+                    }
+                };
+                let overlap = |a: usize, b: usize| -> usize { hi.min(b).saturating_sub(lo.max(a)).wrapping_add(1).min(if hi.min(b) >= lo.max(a) { usize::MAX } else { 0 }) };
+                let want: Vec<(u32, usize, usize)> = [(1u32, 70_000usize, overlap(1, 70_000)), (2, 40_000, overlap(60_001, 100_000))].into_iter().filter(|w| w.2 > 0).collect();
+                if res.len() != want.len() || res.iter().zip(&want).any(|(r, w)| r.0 != w.0) {
+                    ctx.violation(site(kind), "not exactly one record per annotation linked to a sample term", case(json!({"observed_ids": res.iter().map(|r| r.0).collect::<Vec<_>>(), "expected_ids": want.iter().map(|w| w.0).collect::<Vec<_>>()})));
+                    continue;
+                }
+                for (r, w) in res.iter().zip(&want) {
+                    let (big_k, k) = (w.1, w.2);
+                    if r.1 != k as u64 {
+                        ctx.violation(site(kind), "count is not the number of linked sample terms", case(json!({"record": w.0, "K": big_k, "k": k, "observed_count": r.1})));
+                        continue;
+                    }
+                    let want_fold = (k as f64 / n as f64) / (big_k as f64 / big_n as f64);
+                    if !((r.3 - want_fold).abs() <= 1e-12 * want_fold.abs()) {
+                        ctx.violation(site(kind), "fold enrichment is not (k/n)/(K/N)", case(json!({"record": w.0, "N": big_n, "K": big_k, "n": n, "k": k, "observed": r.3, "expected": want_fold})));
+                        continue;
+                    }
+                    let want_p = lr.p(big_n, big_k, n, k);
+                    if !(r.2 >= 0.0 && r.2 <= 1.0) || (r.2 - want_p).abs() > 1e-6 * want_p.abs() + 2e-323 {
+                        ctx.violation(site(kind), "p-value is not the hypergeometric tail P[X >= k]", case(json!({"record": w.0, "N": big_n, "K": big_k, "n": n, "k": k, "observed_p": r.2, "expected_p": want_p})));
+                    }
+                }
+            }
+            ctx.sample(|| json!({"N": big_n, "sample": [lo, hi]}));
         }
     }
 }
